@@ -1000,6 +1000,11 @@ def build_advi(arg):
             parameters.append('coalescent.growth')
         if arg.coalescent == 'piecewise-exponential':
             parameters.append('coalescent.growth')
+    elif arg.birth_death == "constant":
+        parameters.append("constant.lambda")
+        parameters.append("constant.mu")
+        parameters.append("constant.rho")
+        parameters.append("constant.origin")
     elif arg.birth_death is not None:
         parameters.append("bdsk.R")
         parameters.append("bdsk.delta")
